@@ -69,6 +69,45 @@ theorem advance_is_nfa_interpreter (p : Pat) (cfg : Cfg) (r : Run) (e : Event) (
 theorem tryStart_is_nfa_interpreter (p : Pat) (e : Event) :
     tryStartN (compile p) e = (tryStart p e).map (toN p) := tryStartN_compile p e
 
+/-- **C01 over the engine with enumeration** (`matchesOfK`: `complete_run` → `enumerate_with_filter` included),
+first fragment: every emitted match satisfies `GenuineK` (for these patterns nothing is enumerated and `GenuineK`
+is `Genuine` with the capture map compared as a map). -/
+theorem match_genuine_K (p : Pat) (cfg : Cfg) (evs : List Event)
+    (hfrag : p.inFragment = true) (hs : Sorted evs) :
+    ∀ m ∈ matchesOfK p cfg evs, GenuineK p evs m = true := by
+  intro m hm
+  have hd := deferredStep_none_of_inFragment hfrag
+  rw [matchesOfK_eq hd] at hm
+  exact genuineK_of_genuine hd (match_genuine p cfg evs hfrag hs m hm)
+
+/-- **self-referencing `all` filter on a non-last step — partial** (`…_partial`: see below what is missing).
+Let `(i, s, q)` be the enumerated step (`p.deferredStep`), the last step carry no postponed filter. Every match `m`
+the engine emits is obtained from the match `m0` of a completed run such that
+* `m0` is a genuine occurrence of the pattern *without the postponed filter* (`p.strip`): subsequence of the
+  stream in arrival order, every event has its step's type/alias and satisfies its step's (non-postponed) filter
+  against the captures at that moment, one partition, no `.not` event between first and last — the engine
+  provably never looks at the postponed filter (`matchesOf_strip`);
+* `m` keeps `m0`'s stack and overlays its captures with a **non-empty subsequence `es` of the enumerated step's
+  group whose consecutive members satisfy the postponed filter, the earlier member bound to the Kleene alias**
+  (`evalDeferred`; the ZDD iteration is the complete diagram — a6's `pwo_full`/`sets_full`).
+Missing for `GenuineK p evs m`: re-reading `take i ++ es ++ rest` with `explains p.steps` (the later steps'
+filters and `.not` clauses must not depend on the Kleene alias — `Pat.deferredOK` — because the engine evaluated
+them against the last *accumulated* event, not the last event of the combination). `GenuineK` is decided on every
+enumerated match of the implementation by the judge of `vmodel sase`. -/
+theorem enumerated_match_partial (p : Pat) (cfg : Cfg) (evs : List Event) (i : Nat) (s : Step) (q : Pred)
+    (hd : p.deferredStep = some (i, s, q)) (hl : p.lastPlainB = true) (hs : Sorted evs) :
+    ∀ m ∈ matchesOfK p cfg evs, ∃ m0 es,
+      Genuine p.strip evs m0 = true ∧
+      List.Sublist es (groupOf p i m0.stack) ∧ es ≠ [] ∧
+      evalDeferred q ((es.head?.bind (·.alias)).or (extractRefAlias q)) m0.caps (es.map (·.ev)) = true ∧
+      m = ⟨m0.stack, es.foldl (fun c en => bindOpt en.alias en.ev c) m0.caps⟩ := by
+  intro m hm
+  obtain ⟨m0, hm0, hmm⟩ := mem_matchesOfK hm
+  obtain ⟨es, h1, h2, h3, h4⟩ := expand_spec hd hmm
+  refine ⟨m0, es, ?_, h1, h2, h3, h4⟩
+  rw [← matchesOf_strip (lastPlain_of_B hl)] at hm0
+  exact match_genuine p.strip cfg evs (strip_inFragment p) hs m0 hm0
+
 /-- what `Genuine` says, clause by clause. -/
 theorem genuine_spec (p : Pat) (evs : List Event) (m : Match) (h : Genuine p evs m = true) :
     (m.stack.map (·.ev)).Sublist evs
